@@ -78,6 +78,10 @@ def generate(rng, tier='quick', stack=None, focus='general', **kw):
                 'jitter': rng.choice([0.0, 0.0002, 0.001]),
                 'dns_multi': rng.random() < 0.1}
   scn['loop'] = {'batch_break': rng.random() < 0.3}
+  if rng.random() < 0.1:
+    # a stalled process: the clock jumps forward between loop iterations; the
+    # deadline clauses of C01 are not evaluated in these runs
+    scn['loop'].update({'stall_prob': 0.003, 'stall_max': rng.choice([0.02, 0.3, 2.0])})
   scn['permute_sets'] = rng.random() < 0.3
 
   # calls
